@@ -554,3 +554,62 @@ def backward_slice(fn, operand):
                     if o['k'] in ('copy', 'move'):
                         work.append(o['pl']['l'])
     return adts, callees
+
+
+def slice_alternatives(fn, operand):
+    """Like backward_slice, but one (adts, callees) pair per *alternative definition* of the value: the chain of plain moves / clones /
+    reference temporaries is followed from the operand to the first local that is assigned in more than one place (a variable set in two
+    branches, the return value of an inlined helper with an early return) and each of its definitions is sliced on its own.  Used where
+    "the value is built from X" must hold whichever way the value was produced, not for one of the ways."""
+    if operand['k'] not in ('copy', 'move'):
+        return [backward_slice(fn, operand)]
+    defs = fn.defs()
+    l = operand['pl']['l']
+    seen = set()
+    while l not in seen:
+        seen.add(l)
+        ds = [d for d in defs.get(l, []) if not fn.blocks[d[1]]['cleanup']]
+        if len(ds) != 1:
+            break
+        d = ds[0]
+        nxt = None
+        if d[0] == 'stmt':
+            rv = d[3]
+            if rv['k'] == 'use' and rv['op']['k'] in ('copy', 'move') and not rv['op']['pl']['p']:
+                nxt = rv['op']['pl']['l']
+            elif rv['k'] == 'ref' and not rv['pl']['p']:
+                nxt = rv['pl']['l']
+        elif d[0] == 'call':
+            name = d[2]['func'].get('fn') or ''
+            if name.endswith(('::clone', 'Into::into', 'From::from')) and d[2]['args'] and d[2]['args'][0]['k'] in ('copy', 'move') and not d[2]['args'][0]['pl']['p']:
+                nxt = d[2]['args'][0]['pl']['l']
+        if nxt is None:
+            break
+        l = nxt
+    ds = [d for d in defs.get(l, []) if not fn.blocks[d[1]]['cleanup']]
+    if len(ds) <= 1:
+        return [backward_slice(fn, operand)]
+    alts = []
+    for d in ds:
+        adts, callees = set(), set()
+        ops = []
+        if d[0] == 'stmt':
+            rv = d[3]
+            if rv['k'] == 'agg' and rv.get('ak') == 'adt':
+                adts.add(rv['adt'])
+            for k in ('op', 'a', 'b'):
+                if k in rv and isinstance(rv[k], dict):
+                    ops.append(rv[k])
+            ops += rv.get('ops', [])
+            if 'pl' in rv:
+                ops.append({'k': 'copy', 'pl': rv['pl']})
+        elif d[0] == 'call':
+            callees.add(d[2]['func'].get('fn') or '<indirect>')
+            ops += d[2]['args']
+        for o in ops:
+            if o['k'] in ('copy', 'move') and o['pl']['l'] != l:
+                a2, c2 = backward_slice(fn, o)
+                adts |= a2
+                callees |= c2
+        alts.append((adts, callees))
+    return alts
